@@ -2,8 +2,8 @@ INIT Init
 NEXT Next
 CHECK_DEADLOCK FALSE
 CONSTANTS
-  Tokens <- TokFull
-  TokensLong <- TokFull
+  Tokens <- TokCore
+  TokensLong <- TokCore
   MaxTok = 7
   FullUpTo = 0
   EmitFrom = 5
